@@ -109,6 +109,49 @@ func (processSlice) Corpus() [][]string {
 			{{SequenceNumber: 2, Tracks: []*fmp4.PartTrack{{ID: 2, BaseTime: 633, Samples: rbSmp("Opus", 1, 100)}}}}})
 		add(&rbScn{prim: "media", lead: true, audio: "none", must: "err", fault: "no-leading-data", streams: []*rbScnStream{st}})
 	}
+	// F15: rendition segments without any sample (`moof` without `traf`) — first and middle one, then data; and the last one
+	{
+		mk := func(empty []int, leadEmpty bool) *rbScn {
+			var lf, rf []fmp4.Parts
+			for f := 0; f < 3; f++ {
+				lf = append(lf, fmp4.Parts{{SequenceNumber: uint32(f + 1), Tracks: []*fmp4.PartTrack{{ID: 1, BaseTime: uint64(900 + 300*f), Samples: rbSmp("H264", 1, 300)}}}})
+				rf = append(rf, fmp4.Parts{{SequenceNumber: uint32(f + 1), Tracks: []*fmp4.PartTrack{{ID: 1, BaseTime: uint64(480 + 160*f), Samples: rbSmp("MPEG4Audio", 1, 160)}}}})
+			}
+			for _, f := range empty {
+				rf[f] = fmp4.Parts{{SequenceNumber: uint32(f + 1)}}
+			}
+			if leadEmpty {
+				lf[1] = fmp4.Parts{{SequenceNumber: 2}}
+			}
+			lead := rbCorpusStream([]*fmp4.InitTrack{h264(1)}, lf)
+			rend := rbCorpusStream([]*fmp4.InitTrack{{ID: 1, TimeScale: 48000, Codec: rbFMP4Codec("MPEG4Audio")}}, rf)
+			return &rbScn{prim: "multi", lead: true, audio: "found", streams: []*rbScnStream{lead, rend}}
+		}
+		a := mk([]int{0, 1}, false)
+		a.must, a.fault = "ok", "F15-empty-rendition-segments-first-middle"
+		add(a)
+		b := mk([]int{2}, false)
+		b.must, b.fault = "ok", "F15-empty-rendition-segment-last"
+		add(b)
+		c := mk([]int{0, 1, 2}, false)
+		c.must, c.fault = "ok", "F15-empty-rendition-all"
+		add(c)
+		d := mk(nil, true)
+		d.must, d.fault = "ok", "empty-leading-segment-middle"
+		add(d)
+		// the leading stream never carries a sample, the rendition does: error at the end of the leading stream, no wedge
+		e := mk(nil, false)
+		for f := range e.streams[0].parts {
+			e.streams[0].parts[f] = fmp4.Parts{{SequenceNumber: uint32(f + 1)}}
+		}
+		e.must, e.fault = "err", "leading-stream-all-empty"
+		add(e)
+		// a rendition playlist opened directly (its stream is then the leading one) with an empty first and middle part
+		g := mk([]int{0, 1}, false)
+		g.prim, g.audio, g.streams = "media", "none", g.streams[1:]
+		g.must, g.fault = "ok", "F15-rendition-playlist-opened-directly"
+		add(g)
+	}
 	// truncation at EVERY box boundary of an init and of a two-fragment segment (and one byte before it), and at every
 	// packet boundary of an MPEG-TS segment: deterministic, on every run
 	mkFMP4 := func() *rbScn {
